@@ -145,8 +145,10 @@ def discover():
         key = json.dumps(rec, sort_keys=True)
         if key not in found:
             h["n_objects"] = 0
+            h["objects"] = []
             found[key] = (rec, h)
         found[key][1]["n_objects"] += 1
+        found[key][1]["objects"].append(o)
     insts = sorted(found.values(), key=lambda p: p[0]["id"])
     ids = [r["id"] for r, _ in insts]
     if len(set(ids)) != len(ids):
@@ -155,6 +157,144 @@ def discover():
     if len(insts) < 10 or kinds != {"qfloat", "fixed", "numpy", "time"}:
         raise MachineryError("reflection found only %d instances of kinds %s" % (len(insts), sorted(kinds)))
     return insts, unfit
+
+
+def discover_composites(insts):
+    """Every live spec object that reads/writes several quantised components as ONE field: quantised /
+    fixed-point tuple coords, the vectorised arrays through their byte child, and any Adapter whose child
+    (through further adapters) is one of those or a scalar quantiser.  -> list of (record, handle)."""
+    import hippolyzer.lib.base.serialization as se
+    obj_inst = {}
+    index = {}
+    for n, (rec, h) in enumerate(insts):
+        index[rec["id"]] = n + 1
+        for o in h["objects"]:
+            obj_inst[id(o)] = rec
+
+    def parts(spec, chain):
+        """-> (component scalar records, greedy?) of a spec, or None"""
+        if isinstance(spec, se.ForwardSerializable):
+            spec._ensure_evaled()
+            spec = spec._wrapped
+        chain.append(type(spec).__name__ if not isinstance(spec, type) else spec.__name__)
+        if isinstance(spec, se.EncodedTupleCoord):
+            recs = [obj_inst.get(id(x)) for x in spec._elem_specs]
+            return (recs, False) if recs and all(r is not None for r in recs) else None
+        if isinstance(spec, se.QuantizedNumPyArray):
+            child = spec._child_spec
+            if id(spec) in obj_inst and isinstance(child, se.NumPyArray) and isinstance(child._child_spec, se.BytesGreedy):
+                return [obj_inst[id(spec)]] * int(child.elems), True
+            return None
+        if isinstance(spec, (se.QuantizedFloatBase, se.FixedPoint)):
+            r = obj_inst.get(id(spec))
+            return ([r], False) if r is not None and r["kind"] != "time" else None
+        if isinstance(spec, se.Adapter):
+            return parts(spec._child_spec, chain)
+        return None
+
+    found = {}
+    for o in gc.get_objects():
+        try:
+            if isinstance(o, (se.QuantizedFloatBase, se.FixedPoint)):
+                continue            # scalars: every raw is walked by the scalar machine
+            if not isinstance(o, (se.EncodedTupleCoord, se.QuantizedNumPyArray, se.Adapter)):
+                continue
+            chain = []
+            p = parts(o, chain)
+        except ReferenceError:
+            continue
+        except Exception as e:
+            raise MachineryError("cannot reflect composite %r: %s: %s" % (type(o), type(e).__name__, e))
+        if p is None:
+            continue
+        recs, greedy = p
+        cid = "%s<%s>" % ("(".join(chain) + ")" * (len(chain) - 1), ", ".join(r["id"] for r in recs))
+        if cid not in found:
+            found[cid] = ({"id": cid, "comps": [index[r["id"]] for r in recs], "extra": []},
+                          {"obj": o, "recs": recs, "greedy": greedy, "n_objects": 0})
+        found[cid][1]["n_objects"] += 1
+    comps = [found[k] for k in sorted(found)]
+    if len(comps) < 5:
+        raise MachineryError("reflection found only %d composite representations" % len(comps))
+    return comps
+
+
+def _comp_struct(recs):
+    chars = ""
+    for r in recs:
+        c = {255: "B", 65535: "H"}.get(r["rawMax"] - r["rawMin"])
+        if c is None:
+            raise MachineryError("component on an unexpected wire type: %s" % r["id"])
+        chars += c.lower() if r["rawMin"] < 0 else c
+    return struct.Struct("<" + chars)
+
+
+def _comp_roundtrip(se, h, tuples, pod):
+    """Drive the real composite through its byte form.  -> list of (decoded floats, re-encoded raws) per tuple,
+    or ("raise", message)."""
+    o, st = h["obj"], _comp_struct(h["recs"])
+    n = len(h["recs"])
+
+    def one(payload):
+        r = se.BufferReader("<", payload, pod=pod)
+        v = r.read(o)
+        if len(r):
+            raise ValueError("%d bytes left unread" % len(r))
+        w = se.BufferWriter("<")
+        w.write(o, v)
+        return v, bytes(w.copy_buffer())
+    if h["greedy"]:
+        v, out = one(b"".join(st.pack(*t) for t in tuples))
+        rows = [tuple(float(x) for x in row) for row in v]
+        if len(rows) != len(tuples) or len(out) != st.size * len(tuples):
+            raise ValueError("decode/encode changed the number of elements")
+        return [(rows[i][:n], st.unpack_from(out, i * st.size)) for i in range(len(tuples))]
+    res = []
+    for t in tuples:
+        v, out = one(st.pack(*t))
+        if len(out) != st.size:
+            raise ValueError("re-encoded to %d bytes, not %d" % (len(out), st.size))
+        res.append((tuple(float(x) for x in tuple(v))[:n], st.unpack(out)))
+    return res
+
+
+_CJOBS = None
+
+
+def _comp_job(ji):
+    import hippolyzer.lib.base.serialization as se
+    rec, h, rows = _CJOBS[ji]
+    bad, n = [], 0
+    units = [{"1": Fraction(1), "pi": Fraction(math.pi)}[r["unit"]] for r in h["recs"]]
+    for pod in (False, True):
+        tuples = [tuple(r["raws"]) for r in rows]
+        st, res = impl_call(_comp_roundtrip, se, h, tuples, pod)
+        if st != "ok" and h["greedy"]:
+            bad.append(("composite-raise", pod, list(tuples[0]), res))
+            continue
+        if st != "ok":
+            # find the tuples that raise one by one
+            res = []
+            for t in tuples:
+                s1, r1 = impl_call(_comp_roundtrip, se, h, [t], pod)
+                res.append(r1[0] if s1 == "ok" else ("raise", r1))
+        for row, got in zip(rows, res):
+            n += 1
+            if got[0] == "raise":
+                bad.append(("composite-raise", pod, row["raws"], got[1]))
+                continue
+            floats, back = got
+            if len(floats) != len(row["raws"]) or any(x != x or x in (math.inf, -math.inf) for x in floats):
+                bad.append(("composite-decode", pod, row["raws"], {"decoded": repr(floats)}))
+                continue
+            off = [k for k, x in enumerate(floats)
+                   if not _close(x, row["vals"][k], h["recs"][k], units[k].numerator, units[k].denominator)]
+            if off:
+                bad.append(("composite-decode", pod, row["raws"], {"decoded": list(floats), "component": off[0],
+                                                                  "spec_num": row["vals"][off[0]], "D": h["recs"][off[0]]["D"]}))
+            if list(back) != list(row["re"]):
+                bad.append(("composite-roundtrip", pod, row["raws"], {"decoded": list(floats), "re_encoded": list(back), "spec": row["re"]}))
+    return ji, n, bad
 
 
 # ----------------------------------------------------------------------------------------
@@ -278,29 +418,61 @@ def _replay_job(ji):
     return ji, n, bad
 
 
-def _tables(chk: Check, insts, shards: int):
-    """Run Quant_MBT (invariants on) over all instances; -> {id: rows in raw order}."""
+COMP_INVS = ["CompTypeOK", "CompRoundTrip"]
+
+
+def _tables(chk: Check, insts, shards: int, comps=()):
+    """Run Quant_MBT (invariants on) over all instances; -> {id: rows in raw order}, {composite id: rows}."""
     small = [r for r, _ in insts if r["rawMax"] - r["rawMin"] < 256]
     big = [r for r, _ in insts if r["rawMax"] - r["rawMin"] >= 256]
     if any(r["rawMax"] - r["rawMin"] > 65535 for r in big):
         raise MachineryError("instance on a wire type wider than 16 bits: the property quantifies over 8/16-bit types")
     groups = [small] + [g for g in common.chunked(big, shards) if g]
+    if comps:
+        groups.append("composites")
     import concurrent.futures as cf
 
     def one(arg):
         no, recs = arg
         d = os.path.join(chk.scratch, "q%d" % no)
         os.makedirs(d, exist_ok=True)
+        composite = recs == "composites"
         with open(os.path.join(d, "insts.json"), "w") as f:
-            json.dump(recs, f)
+            json.dump([r for r, _ in insts] if composite else recs, f)
+        with open(os.path.join(d, "comps.json"), "w") as f:
+            json.dump([c for c, _ in comps] if composite else [], f)
         cfg = os.path.join(d, "Quant_MBT.cfg")
         with open(cfg, "w") as f:
-            f.write("SPECIFICATION MSpec\n%sPROPERTY MonotoneStep\n" % "".join("INVARIANT %s\n" % i for i in INVS))
+            if composite:
+                f.write("SPECIFICATION MCSpec\n%s" % "".join("INVARIANT %s\n" % i for i in COMP_INVS))
+            else:
+                f.write("SPECIFICATION MSpec\n%sPROPERTY MonotoneStep\n" % "".join("INVARIANT %s\n" % i for i in INVS))
         return run_tlc(os.path.join(SPECS, "Quant_MBT.tla"), cfg, workers=1, scratch=d,
-                       env={"QUANT_INSTS": os.path.join(d, "insts.json")}, heap="3g")
+                       env={"QUANT_INSTS": os.path.join(d, "insts.json"), "QUANT_COMPS": os.path.join(d, "comps.json")}, heap="3g")
     with cf.ThreadPoolExecutor(max_workers=len(groups)) as ex:
         results = list(ex.map(one, enumerate(groups)))
     tables = {}
+    ctables = {}
+    if comps:
+        groups.pop()
+        res = results.pop()
+        chk.add_tlc(res, "Quant %d composite(s)" % len(comps))
+        if not res.ok:
+            cex = res.counterexample()
+            mi = re.findall(r"/\\ ci = (\d+)", cex)
+            cid = comps[int(mi[-1]) - 1][0]["id"] if mi and int(mi[-1]) <= len(comps) else "?"
+            chk.violation("model: %s violated for composite %s" % (",".join(res.violated) or "error", cid),
+                          {"kind": "model", "violated": res.violated, "comp": cid}, {"tlc": cex})
+        else:
+            for line in res.out.splitlines():
+                if line.startswith('"{'):
+                    row = json.loads(json.loads(line))["crow"]
+                    ctables.setdefault(row["c"], []).append(row)
+            for c, _ in comps:
+                rows = ctables.get(c["id"], [])
+                rows.sort(key=lambda r: r["raws"])
+                if len(rows) < 7 ** len(c["comps"]):
+                    raise MachineryError("composite table of %s is incomplete (%d rows)" % (c["id"], len(rows)))
     for recs, res in zip(groups, results):
         chk.add_tlc(res, "Quant %d instance(s)" % len(recs))
         if not res.ok:
@@ -326,7 +498,7 @@ def _tables(chk: Check, insts, shards: int):
         exp = r["rawMax"] - r["rawMin"] + 1
         if rows[0]["raw"] != r["rawMin"] or rows[-1]["raw"] != r["rawMax"] or len(rows) != exp:
             raise MachineryError("table of %s is incomplete (%d rows)" % (r["id"], len(rows)))
-    return tables
+    return tables, ctables
 
 
 def _durations(chk: Check, quick: bool):
@@ -344,7 +516,8 @@ def run(chk: Check):
     chk.cov["instances"] = [dict(r, objects=h["n_objects"]) for r, h in insts]
     chk.cov["rule"] = ("one TLC state and one replayed table row per (instance, raw): decode, grid value, ends, zero, order and "
                        "re-encode compared with the row; instances found by reflection. non-trivial = rows at an end of the range, "
-                       "rows meaning zero, and 256-raw buckets of the remaining rows (per instance and duration).")
+                       "rows meaning zero, and 256-raw buckets of the remaining rows (per instance and duration); composites: one TLC state "
+                       "and one replayed row per (composite, raw tuple) on the boundary lattice {ends, ends+-1, centre, centre+-1}^n plus sampled tuples.")
     chk.assumptions += [
         "declared bounds are the nearest doubles of small rationals (or small rational multiples of pi); checked by the bridge",
         "a decoded float conforms to the grid when it is within a quarter step of the exact grid value (ends and zero: exactly equal)",
@@ -352,9 +525,16 @@ def run(chk: Check):
         "QuantizedNumPyArray documents 'no zero midpoint rounding': the zero clause is not demanded of the vectorised variant",
         "key-frame times: durations are positive finite float32 values (2^-8..2^12 and random); duration 0 is outside the domain",
         "the upper end of a declared range is constrained only when it lies on the raw grid (it does not for PackedTERotation and FixedPoint)",
+        "composites (quantised vectors, packed quaternions, vector lists) are driven through their byte form with ctx None, little-endian; "
+        "every raw tuple must come back unchanged, also for 3-component packed quaternions whose decoded X/Y/Z is longer than 1 (W is not on the wire)",
     ]
     # both tiers walk every raw value of every instance; they differ in the duration sweep
-    tables = _tables(chk, insts, shards=8)
+    comps = discover_composites(insts)
+    n_extra = 300 if quick else 4000
+    for c, h in comps:
+        c["extra"] = sorted({tuple(chk.rng.randrange(r["rawMin"], r["rawMax"] + 1) for r in h["recs"]) for _ in range(n_extra)})
+    chk.cov["composites"] = [dict(id=c["id"], objects=h["n_objects"]) for c, h in comps]
+    tables, ctables = _tables(chk, insts, shards=8, comps=comps)
     durs = _durations(chk, quick)
     jobs = []
     for rec, h in insts:
@@ -390,6 +570,27 @@ def run(chk: Check):
                 feat["duration"] = dur
             chk.violation("%s: %s at raw %d%s" % (rec["id"], kind, raw, "" if dur is None else " (duration %r)" % dur),
                           feat, {"instance": rec, "observed": detail, "failing_raws_of_this_kind": sum(1 for b in bad if b[0] == kind)})
+    # composites: every lattice / sampled raw tuple through the real composite field, both reader forms
+    global _CJOBS
+    _CJOBS = [(c, h, ctables[c["id"]]) for c, h in comps if ctables.get(c["id"])]
+    crows = 0
+    for ji, n, bad in common.parallel_map(_comp_job, list(range(len(_CJOBS)))):
+        c, h, rows = _CJOBS[ji]
+        chk.count(n)
+        crows += len(rows)
+        for row in rows[::7]:
+            chk.nontrivial((c["id"], tuple(row["raws"])))
+        per_kind = {}
+        for kind, pod, raws, detail in bad:
+            per_kind[kind] = per_kind.get(kind, 0) + 1
+            if per_kind[kind] > MAX_PER_KIND:
+                continue
+            chk.violation("%s: %s at raws %s (%s reader)" % (c["id"], kind, list(raws), "pod" if pod else "object"),
+                          {"kind": kind, "comp": c["id"], "raws": list(raws), "pod": pod},
+                          {"components": [r["id"] for r in h["recs"]], "observed": detail,
+                           "failing_tuples_of_this_kind": sum(1 for b in bad if b[0] == kind)})
+    total_rows += crows
+    chk.cov["composite_rows_replayed"] = crows
     chk.cov["traces_validated_against_impl"] += total_rows
     chk.cov["rows_replayed"] = total_rows
     chk.cov["durations"] = durs
